@@ -279,3 +279,43 @@ def boosted_level(v, level, parts, eci, is_sa=False):
     for l in cand:
         res_order = ite(need <= data_capacity_bits(v, l), LEVEL_ORDER[l], res_order)
     return res_order   # as order index 0..3 (symbolic-friendly)
+
+
+# ---------------------------------------------------------------- C13: terminator / padding (ISO 7.4.9, 7.4.10)
+PAD_CODEWORDS = ((1, 1, 1, 0, 1, 1, 0, 0), (0, 0, 0, 1, 0, 0, 0, 1))   # 11101100, 00010001
+
+
+def pad_bit(parity, r):
+    """bit r (0 = most significant) of the pad codeword with index parity (0: 11101100, 1: 00010001)"""
+    res = 0
+    for par in (0, 1):
+        for k in range(8):
+            res = ite(land(parity == par, r == k), PAD_CODEWORDS[par][k], res)
+    return res
+
+
+def terminated_length(v, level, length):
+    cap = data_capacity_bits(v, level)
+    return length + smin(cap - length, terminator_len(v))
+
+
+def padded_length(v, level, length):
+    """length after terminator and the zero bits up to the next codeword boundary
+    (the final codeword of M1/M3 is 4 bits long, so the capacity is a boundary too)"""
+    cap = data_capacity_bits(v, level)
+    l1 = terminated_length(v, level, length)
+    return smin(l1 + (-l1) % 8, cap)
+
+
+def stream_bit_after_data(v, level, length, j):
+    """ISO value of bit j (length <= j < capacity) of the data bit stream whose
+    segments end at `length`: terminator and boundary padding are zero, then pad
+    codewords 11101100 / 00010001 alternately, the final 4-bit codeword of M1/M3 is 0000."""
+    cap = data_capacity_bits(v, level)
+    l2 = padded_length(v, level, length)
+    q = (j - l2) // 8
+    r = (j - l2) % 8
+    bit = ite(j < l2, 0, pad_bit(q % 2, r))
+    if v in (M1, M3):
+        bit = ite(j >= cap - 4, 0, bit)
+    return bit
